@@ -1,4 +1,5 @@
 import QuiverModel.Lemmas.Exec.Error
+import QuiverModel.Lemmas.Exec.SysBridge
 /-
 C15 — Failures are contained and propagate only to awaiters; workers never crash. Property theorems
 only (`C15.<name>`); model: Core/Exec/Error.lean on top of Core/Exec/Select.lean; helper lemmas:
@@ -377,5 +378,201 @@ example :
     ((w.queryAndAwait 7 [0]).1.checkCompleted.2.map (fun ev => (ev.awaiter, ev.results))) =
       [(7, [(0, some (.err .invalidArgument))])] := by decide
 
+
+/-! ## The environment side (M-Sys of C04, imported): failure propagation across workers
+
+`QM.Sys` (Core/Sys/Basic.lean, owned by C04) models `Environment::step`, `handle_await_processes`,
+`handle_process_results`, `process_router` and the workers' await registry at message level; `fault`
+records an `EnvironmentError`. The theorems below are about `QM.Sys.run (Sys.init n prog req) cs` for
+EVERY choice sequence `cs` (any interleaving, partial visibility, slice length, hash order, ticks), any
+worker count and any well-formed program, or about a handler on EVERY state. -/
+
+/-- the routing invariant after every choice sequence (C04's `RInv`, re-derived from its lemmas) -/
+theorem routing_invariant (n : Nat) (prog : QM.Sys.Prog) (req : Nat) (hn : 0 < n) (hwf : QM.Sys.ProgWF prog)
+    (cs : List QM.Sys.Choice) :
+    QM.Sys.PreStart (QM.Sys.run (QM.Sys.Sys.init n prog req) cs) ∨ QM.Sys.RInv (QM.Sys.run (QM.Sys.Sys.init n prog req) cs) :=
+  QM.Sys.invariant_from_init QM.Sys.Rules.current QM.Sys.RInv (fun _ h => QM.Sys.RInv.of_started h)
+    (fun _ m h => h.micro QM.Sys.Rules.current_tame m) n prog req hn hwf cs
+
+/-- (b) **`Environment::step` (and `Worker::step`) never returns an `EnvironmentError`** on any event
+(command) batch the composed system can produce: no `?` site is reached, so no event of a batch is ever
+dropped. -/
+theorem environment_step_total (n : Nat) (prog : QM.Sys.Prog) (req : Nat) (hn : 0 < n) (hwf : QM.Sys.ProgWF prog)
+    (cs : List QM.Sys.Choice) : (QM.Sys.run (QM.Sys.Sys.init n prog req) cs).fault = false := by
+  rcases routing_invariant n prog req hn hwf cs with h | h
+  · exact h.nofault
+  · exact h.nofault
+
+/-- … because **every pid named in a queued event has a router entry** (the `process_router` lookups of
+`handle_spawn`, `handle_deliver`, `handle_await_processes`, `handle_process_results` cannot fail). -/
+theorem event_pids_routed (n : Nat) (prog : QM.Sys.Prog) (req : Nat) (hn : 0 < n) (hwf : QM.Sys.ProgWF prog)
+    (cs : List QM.Sys.Choice) (w : Nat) (e : QM.Sys.Evt)
+    (he : e ∈ (QM.Sys.run (QM.Sys.Sys.init n prog req) cs).evtQ w) :
+    match e with
+    | .spawn c _ regs _ => (QM.Sys.run (QM.Sys.Sys.init n prog req) cs).env.router c = some w ∧
+        ∀ q ∈ regs, ((QM.Sys.run (QM.Sys.Sys.init n prog req) cs).env.router q).isSome
+    | .deliver t _ => ((QM.Sys.run (QM.Sys.Sys.init n prog req) cs).env.router t).isSome
+    | .await a ts => (QM.Sys.run (QM.Sys.Sys.init n prog req) cs).env.router a = some w ∧
+        ∀ t ∈ ts, ((QM.Sys.run (QM.Sys.Sys.init n prog req) cs).env.router t).isSome
+    | .procResults a rs => ((QM.Sys.run (QM.Sys.Sys.init n prog req) cs).env.router a).isSome ∧
+        ∀ tr ∈ rs, (QM.Sys.run (QM.Sys.Sys.init n prog req) cs).env.router tr.1 = some w
+    | .resultResp _ _ => True := by
+  rcases routing_invariant n prog req hn hwf cs with h | h
+  · rw [h.evtQ w] at he; simp at he
+  · have := h.evts w e he
+    cases e with
+    | spawn c fn regs co => exact ⟨this.1, this.2.2⟩
+    | deliver t m => exact this.2
+    | await a ts => exact this
+    | procResults a rs => exact this
+    | resultResp _ _ => trivial
+
+/-! ### (c) `worker_step_total` without the `CmdOK` hypothesis -/
+
+def trRes : Option QM.Sys.Res → Option (WireRes Unit)
+  | none => none
+  | some (.ok _) => some (.ok { val := () })
+  | some .err => some (.err .invalidArgument)
+
+/-- the commands of M-Sys as commands of `QM.Exec.Worker` (`misc` / `getResult` have no counterpart
+there — they do not touch processes; `start` / `resume` are never queued after start-up) -/
+def trCmd (plen : Nat) : QM.Sys.Cmd → Option (Cmd Unit)
+  | .spawn p fn _ => some (.spawn p (decide (fn < plen)))
+  | .notifySpawn c _ => some (.notifySpawn c)
+  | .deliver t _ => some (.deliver t { val := () })
+  | .queryAwait a ts => some (.queryAndAwait a ts)
+  | .updateAwait a rs => some (.updateAwaitResults a (rs.map (fun tr => (tr.1, trRes tr.2))))
+  | _ => none
+
+/-- **`CmdOK` is an invariant of the composed system**: whatever the environment has queued for a
+worker, translated, satisfies `CmdOK` — in every state of that worker. -/
+theorem environment_commands_are_ok (router : QM.Sys.Router) (plen : Nat) (known : Nat → Prop) (w : Nat)
+    (c : QM.Sys.Cmd) (h : QM.Sys.CmdOK router plen known w c) (c' : Cmd Unit) (hc : trCmd plen c = some c')
+    (wk : Worker Unit) : CmdOK wk c' := by
+  cases c with
+  | misc => cases hc
+  | start p => cases hc
+  | resume p fn => cases hc
+  | getResult r p => cases hc
+  | spawn p fn regs =>
+    simp only [trCmd, Option.some.injEq] at hc; subst hc
+    simp only [CmdOK]
+    exact decide_eq_true h.2.1
+  | notifySpawn c p => simp only [trCmd, Option.some.injEq] at hc; subst hc; trivial
+  | deliver t m => simp only [trCmd, Option.some.injEq] at hc; subst hc; rfl
+  | queryAwait a ts => simp only [trCmd, Option.some.injEq] at hc; subst hc; trivial
+  | updateAwait a rs =>
+    simp only [trCmd, Option.some.injEq] at hc; subst hc
+    simp only [CmdOK]
+    intro k wire hm
+    obtain ⟨tr, _, htr⟩ := List.mem_map.mp hm
+    simp only [Prod.mk.injEq] at htr
+    obtain ⟨_, h2⟩ := htr
+    cases hr : tr.2 with
+    | none => rw [hr] at h2; simp [trRes] at h2
+    | some r =>
+      rw [hr] at h2
+      cases r with
+      | ok v => simp only [trRes, Option.some.injEq, WireRes.ok.injEq] at h2; rw [← h2]
+      | err => simp [trRes] at h2
+
+theorem cmdsOK_of_static : ∀ (cmds : List (Cmd Unit)), (∀ c ∈ cmds, ∀ wk : Worker Unit, CmdOK wk c) →
+    ∀ wk : Worker Unit, CmdsOK wk cmds
+  | [], _, _ => trivial
+  | c :: rest, h, wk =>
+    ⟨h c List.mem_cons_self wk, fun w' _ _ => cmdsOK_of_static rest (fun c' hc' => h c' (List.mem_cons_of_mem _ hc')) w'⟩
+
+/-- (c) **`worker_step_total` for the commands the environment can actually send** — no `CmdOK`
+hypothesis: after every choice sequence of the composed system, any visible prefix of any worker's
+command queue (translated) is handled by `Worker::step` without an internal error, in ANY state of the
+`QM.Exec` worker and however the time slice of the running process ends. -/
+theorem worker_step_total_composed (n : Nat) (prog : QM.Sys.Prog) (req : Nat) (hn : 0 < n) (hwf : QM.Sys.ProgWF prog)
+    (cs : List QM.Sys.Choice) (i vis : Nat) (wk : Worker Unit) (now : Nat) (slice : Slice Unit) :
+    QM.Sys.PreStart (QM.Sys.run (QM.Sys.Sys.init n prog req) cs) ∨
+    ∃ w' evs, wk.step now ((((QM.Sys.run (QM.Sys.Sys.init n prog req) cs).cmdQ i).take vis).filterMap
+      (trCmd (QM.Sys.run (QM.Sys.Sys.init n prog req) cs).prog.length)) slice = .ok (w', evs) := by
+  rcases routing_invariant n prog req hn hwf cs with h | h
+  · exact Or.inl h
+  · right
+    apply worker_step_total
+    apply cmdsOK_of_static
+    intro c' hc' wk'
+    obtain ⟨c, hc, htr⟩ := List.mem_filterMap.mp hc'
+    exact environment_commands_are_ok _ _ _ i c (h.cmds i c (List.mem_of_mem_take hc)) c' htr wk'
+
+/-! ### (a) the links of the failure chain, each on EVERY state of M-Sys
+
+worker of the target → `ProcessResults` → environment (`pending_awaits` merge or direct forward) →
+`UpdateAwaitResults` → awaiter's worker → `awaiting_failed` + wake-up. -/
+
+/-- target's worker, await BEFORE the failure: one report per registration, registry cleared -/
+theorem failure_reported_to_every_registered_awaiter (s : QM.Sys.Sys) (i : Nat) (t : Nat)
+    (hr : (s.wk i).resultOf t = some .err) :
+    (QM.Sys.reportTarget s i t).evtQ i =
+      s.evtQ i ++ ((s.wk i).awaitersFor t).map (fun a => QM.Sys.Evt.procResults a [(t, some .err)]) ∧
+    ((QM.Sys.reportTarget s i t).wk i).awaitersFor t = [] ∧ (QM.Sys.reportTarget s i t).fault = s.fault :=
+  QM.Sys.registered_awaiters_each_reported s i t .err hr
+
+/-- target's worker, await AFTER the failure: placeholder + registration (then the report above) -/
+theorem late_awaiter_of_failed_target_is_registered (w : QM.Sys.WorkerSt) (a t : Nat) (x : QM.Sys.Proc)
+    (hx : w.procs t = some x) (hr : x.result = some .err) :
+    (QM.Sys.queryTargets w a [t]).2 = [(t, none)] ∧ a ∈ (QM.Sys.queryTargets w a [t]).1.awaitersFor t ∧
+    t ∈ (QM.Sys.queryTargets w a [t]).1.awaited ∧ (QM.Sys.queryTargets w a [t]).1.resultOf t = some .err :=
+  QM.Sys.query_of_failed_target_registers w a t x hx hr
+
+/-- environment, initial multi-worker query still pending: the failure overrides the placeholder that
+was merged first (seeded/C15-3 kept the placeholder: `first_report_wins_loses_failure`) -/
+theorem failure_overrides_placeholder (s : QM.Sys.Sys) (a : Nat) (new : QM.Sys.Results) (w0 : Nat) (t : Nat)
+    (pa : QM.Sys.PendingAwait) (hp : s.env.pending a = some pa) (hrouted : (s.env.router a).isSome)
+    (hsender : ∃ k v rest, new = (k, v) :: rest ∧ s.env.router k = some w0)
+    (hnd : (new.map (·.1)).Nodup) (hnew : QM.Sys.alookup new t = some (some .err)) :
+    QM.Sys.pendingHas (QM.Sys.handleProcResultsWith QM.Sys.mergeAnswer s a new) a w0 t .err ∨
+    ∃ aw rs, QM.Sys.Cmd.updateAwait a rs ∈ (QM.Sys.handleProcResultsWith QM.Sys.mergeAnswer s a new).cmdQ aw ∧
+      (t, some .err) ∈ rs :=
+  QM.Sys.outcome_overrides_placeholder s a new w0 t .err pa hp hrouted hsender hnd hnew
+
+/-- environment, no pending query (a later completion): forwarded verbatim, no `EnvironmentError` -/
+theorem failure_report_forwarded (s : QM.Sys.Sys) (a : Nat) (rs : QM.Sys.Results) (aw : Nat)
+    (hp : s.env.pending a = none) (hr : s.env.router a = some aw) :
+    QM.Sys.Cmd.updateAwait a rs ∈ (QM.Sys.handleProcResultsWith QM.Sys.mergeAnswer s a rs).cmdQ aw ∧
+    (QM.Sys.handleProcResultsWith QM.Sys.mergeAnswer s a rs).fault = s.fault :=
+  QM.Sys.report_without_pending_is_forwarded s a rs aw hp hr
+
+/-- awaiter's worker: the failure becomes a ready source of the awaiting select and the select is woken -/
+theorem failure_recorded_and_select_woken (s : QM.Sys.Sys) (i : Nat) (a : Nat) (rs : QM.Sys.Results)
+    (x : QM.Sys.Proc) (t : Nat) (hx : (s.wk i).procs a = some x) (hs : x.stillAwaiting t = true)
+    (ht : (t, some QM.Sys.Res.err) ∈ rs) :
+    ∃ x', ((QM.Sys.handleCmd s i (.updateAwait a rs)).wk i).procs a = some x' ∧ t ∈ x'.awaitFailed ∧
+      x'.result = x.result ∧ a ∉ ((QM.Sys.handleCmd s i (.updateAwait a rs)).wk i).selecting := by
+  obtain ⟨x', h1, h2, h3, _, h5⟩ := QM.Sys.update_records_failure s i a rs x t hx hs ht
+  exact ⟨x', h1, h2, h3, h5⟩
+
+/-- with merged answers the failure reaches the awaiter; with first-report-wins (seeded/C15-3) the
+placeholder is kept and the awaiter is told "nothing finished": it would park for ever -/
+theorem merged_answers_deliver_failure :
+    (QM.Sys.c153Reports QM.Sys.mergeAnswer).cmdQ 1 = [.updateAwait 9 [(1, some .err), (2, none)]] := by decide
+
+theorem first_report_wins_loses_failure :
+    (QM.Sys.c153Reports QM.Sys.keepFirstAnswer).cmdQ 1 = [.updateAwait 9 [(1, none), (2, none)]] := by decide
+
+
+/-- Full system-level statement of (a) — NOT proved (`_partial`: the five per-link theorems above hold on
+every state, `routing_invariant` / `environment_step_total` and C04's `pending_await_completes`,
+`no_lost_wakeup`, `reports_truthful`, `results_stable` hold after every choice sequence; what is missing
+is the inductive invariant that chains them: it needs positional facts about the queues — in a worker's
+event queue every placeholder `(t, None)` for an awaiter is followed by the report `(t, Some r)` or the
+awaiter is still registered (a suffix-counting invariant per worker/awaiter/target), and an awaiter's
+AwaitAction events are handled in order, so that a `pending_awaits` entry is only replaced by a newer
+select's — the same obstacles as C04's `AwaitAnswerCompleteStatement`). The statement: when the system
+is quiescent, no live process still awaits a failed process without having it recorded as a failed
+(ready) source of its select. Observed by the harness on every run (`kind=hang role=awaiter`,
+C05's `kind=await-result-lost`). -/
+def FailureReachesAwaitersStatement : Prop :=
+  ∀ (n : Nat) (prog : QM.Sys.Prog) (req : Nat), 0 < n → QM.Sys.ProgWF prog → ∀ (cs : List QM.Sys.Choice),
+    (QM.Sys.run (QM.Sys.Sys.init n prog req) cs).quiescent →
+    ∀ (wa wt a t : Nat) (x y : QM.Sys.Proc),
+      ((QM.Sys.run (QM.Sys.Sys.init n prog req) cs).wk wa).procs a = some x → x.stillAwaiting t = true →
+      ((QM.Sys.run (QM.Sys.Sys.init n prog req) cs).wk wt).procs t = some y → y.result = some .err →
+      t ∈ x.awaitFailed
 
 end C15
